@@ -93,6 +93,11 @@ def validate_trace(module, cfg_text, tag, trace_path, timeout=600, env=None, hea
         e.update(env)
     r = _run(module, cfg_text, tag, 1, timeout, env=e, java_opts=TRACE_JAVA, heap=heap, coverage=False,
              extra=[])
+    if not tag.startswith("selftest"):
+        # remembered for `./check selftest`, which re-runs this validation on corrupted copies of the trace
+        os.makedirs(os.path.join(WORK, "calls"), exist_ok=True)
+        json.dump({"module": module, "cfg": cfg_text, "trace": trace_path, "env": env or {}, "heap": heap},
+                  open(os.path.join(WORK, "calls", tag + ".json"), "w"))
     r["bad"] = []
     for m in re.finditer(r'<<\s*"BAD",\s*(\{[^}]*\}),\s*(\d+)\s*>>', r.get("raw", "")):
         labels = re.findall(r'"([^"]+)"', m.group(1))
